@@ -13,6 +13,7 @@ import (
 	"regexp"
 	"strings"
 
+	"github.com/regclient/regclient/pkg/archive"
 	"github.com/regclient/regclient/zzverif/vtrace"
 )
 
@@ -250,12 +251,19 @@ func contentOf(c string, g *graph, pool map[string][]byte) ([]byte, bool) {
 
 // repack writes the archive of a scenario.  An entry whose content the export did not deliver is
 // left out (the archive then lacks what the export lacked).
-func repack(arch []entry, g *graph, pool map[string][]byte, gz bool) ([]byte, error) {
+func repack(arch []entry, g *graph, pool map[string][]byte, comp, tarfmt string) ([]byte, error) {
 	var buf bytes.Buffer
 	tw := tar.NewWriter(&buf)
+	format := tar.FormatPAX
+	switch tarfmt {
+	case "gnu":
+		format = tar.FormatGNU
+	case "ustar":
+		format = tar.FormatUSTAR
+	}
 	for _, e := range arch {
 		name := concrete(e.Name, g)
-		h := &tar.Header{Name: name, Mode: 0o644, Format: tar.FormatPAX}
+		h := &tar.Header{Name: name, Mode: 0o644, Format: format}
 		switch e.Kind {
 		case "file":
 			data, ok := contentOf(e.C, g, pool)
@@ -289,16 +297,37 @@ func repack(arch []entry, g *graph, pool map[string][]byte, gz bool) ([]byte, er
 	if err := tw.Close(); err != nil {
 		return nil, err
 	}
-	if !gz {
-		return buf.Bytes(), nil
+	return compress(buf.Bytes(), comp)
+}
+
+// compress: gzip with the standard library; zstd and xz with the writers regclient ships in
+// pkg/archive (the standard library has none; they only produce input here, nothing is judged by them).
+func compress(b []byte, comp string) ([]byte, error) {
+	var ct archive.CompressType
+	switch comp {
+	case "", "none":
+		return b, nil
+	case "gzip":
+		var zb bytes.Buffer
+		zw := gzip.NewWriter(&zb)
+		if _, err := zw.Write(b); err != nil {
+			return nil, err
+		}
+		if err := zw.Close(); err != nil {
+			return nil, err
+		}
+		return zb.Bytes(), nil
+	case "zstd":
+		ct = archive.CompressZstd
+	case "xz":
+		ct = archive.CompressXz
+	default:
+		return nil, fmt.Errorf("compression %q", comp)
 	}
-	var zb bytes.Buffer
-	zw := gzip.NewWriter(&zb)
-	if _, err := zw.Write(buf.Bytes()); err != nil {
+	rc, err := archive.Compress(bytes.NewReader(b), ct)
+	if err != nil {
 		return nil, err
 	}
-	if err := zw.Close(); err != nil {
-		return nil, err
-	}
-	return zb.Bytes(), nil
+	defer rc.Close()
+	return io.ReadAll(rc)
 }
